@@ -1835,6 +1835,12 @@ class RepeatingEngine(Engine):
                         # VV: Emit right after attempting to launch the process
                         self.emit_now()
 
+                        if self._suicide:
+                            # VV: kill-after-producers-done-delay expired after this invocation checked
+                            # self._suicide but before self.process was replaced: suicide() only signalled the
+                            # previous task. Signal the new one, otherwise nobody ever terminates it.
+                            my_process.kill()
+
                         self.log.debug("Will wait till my process is Finished")
                         my_process.wait()
                         launch_finished = datetime.datetime.now()
